@@ -91,3 +91,26 @@ Example ex_wait_blocked : option_map (fun s => (rx (base s), c_pc (getc 0 (base 
   /\ option_map (fun s => (rx (base s), c_pc (getc 0 (base s))))
        (run2 (init2 cfg_resumed) (ex_wait ++ [c 0 0; r 0])) = Some (RRead, CLock).
 Proof. vm_compute. repeat split; reflexivity. Qed.
+
+(* one rotation, two rejected requests: the server sends one bad_server_salt per request, both naming the SAME
+   salt 777 (the second arrives when 777 is already in force), then rotates to 778 and back to 777 for caller 0
+   again.  Every rejection is honoured whatever the salt value: caller 1 is re-sent once (44 -> 52), caller 0
+   three times (40 -> 48 -> 56 -> 60); four retries ordered, four adoptions saved. *)
+Definition ex_same_salt : list label2 := [
+  L1 (LCall 0 false); c 0 10; c 0 0; c 0 0;
+  L1 (LCall 1 false); c 1 10; c 1 0; c 1 0;
+  L1 (LSrv (3, 0, BBadSalt 40 777)); L1 (LSrv (7, 0, BBadSalt 44 777));
+  r 0; r 0; r 0; r 0; r 0; r 0;
+  c 0 12; c 0 0; c 0 0; c 1 13; c 1 0; c 1 0;
+  L1 (LSrv (11, 0, BBadSalt 48 778)); r 0; r 0; r 0; c 0 14; c 0 0; c 0 0;
+  L1 (LSrv (15, 0, BBadSalt 56 777)); r 0; r 0; r 0; c 0 15; c 0 0; c 0 0;
+  L1 (LSrv (19, 0, BResult 60 false KObj 7)); r 0; r 0; r 0;
+  L1 (LSrv (23, 0, BResult 52 false KObj 8)); r 0; r 0; r 0].
+
+Example ex_same_salt_ok :
+  option_map (fun s => (rets (base s), store (base s), retries (elog (base s)),
+                        map (fun w => (w_id w, w_salt w)) (wire_out (elog (base s))), table (base s)))
+             (run2 (init2 cfg_resumed) ex_same_salt)
+  = Some ([(1%nat, 1%nat, 52, RetVal KObj 8); (0%nat, 1%nat, 60, RetVal KObj 7)], [777; 778; 777; 777], [56; 48; 44; 40],
+          [(60, 777); (56, 778); (52, 777); (48, 777); (44, 0); (40, 0)], []).
+Proof. vm_compute. reflexivity. Qed.
